@@ -714,7 +714,7 @@ RULES = [
 ]
 
 MANIFEST = {
-    "text": "Complete static audit of the crate's own panic sites (MIR Assert terminators and calls of a denylist of panicking std APIs), loops (finite-iterator headers) and recursion (call-graph SCCs) over all library bodies; every site is a documented panic or discharged by a re-verified justification (index provenance from the binary search, infallible string formatting, non-zero constant divisor, additions bounded by live data). Subtraction/negation/multiplication overflow asserts have no table justification.",
+    "text": "Complete static audit of the crate's own panic sites (MIR Assert terminators and calls of a denylist of panicking std APIs), loops (finite-iterator headers) and recursion (call-graph SCCs) over all library bodies; every site is a documented panic or discharged by a re-verified justification (index provenance from the binary search, infallible string formatting, non-zero constant divisor, additions bounded by live data). Subtraction/negation/multiplication overflow asserts have no table justification. The Display type check counts as the documented panic only because the built-in type parameters cannot reach it: rule DISPLAY-GUARD re-uses the obligations that every built-in shape's finish leaves a valid type behind (C13) and that the PackageType names are valid (C15). debug_assert!s are panic sites like any other (the property is stated for builds with debug assertions): one that the justifications cannot discharge is reported.",
     "note": "Trusted: rustc MIR (overflow checks and bounds checks appear as Assert terminators in debug MIR), the denylist, the justification procedures. Not decided: panics/overflow/non-termination inside dependencies and std beyond their documented-panicking APIs; allocation failure; stack depth.",
     "technique": "exhaustive panic-site enumeration over MIR + per-site justification by origin resolution and dominance; loop-header and call-graph cycle audit; clippy restriction lints as cross-reference (thorough)",
     "design_ref": "DESIGN.md 5.6",
